@@ -19,10 +19,11 @@ def contracts(tier):
 
 
 def extra_obligations(tier):
-    return [solve.custom_result('bspline:tp_bsp_*_pointwise', g.FB, 'tp_bsp_eval_pointwise', g.pointwise_axis_obligations),
+    _pu = solve.custom_result('paramuse:C07', 'pyiga/geometry.py', 'all functions', __import__('pyvc.paramuse', fromlist=['x']).obligations(['pyiga/geometry.py', 'pyiga/bspline.py'], 'paramuse'))
+    _r = [solve.custom_result('bspline:tp_bsp_*_pointwise', g.FB, 'tp_bsp_eval_pointwise', g.pointwise_axis_obligations),
             solve.custom_result('geometry:_BoundaryFunction', g.FG, '_BoundaryFunction.eval', g.boundary_function_obligations),
             solve.custom_result('geometry:frame', g.FG, 'NurbsFunc.translate', g.frame_obligations)]
-
+    return list(_r) + [_pu]
 
 MANIFEST = {
     'category': 'proof',
